@@ -163,9 +163,15 @@ class Episode:
         # ---- grid
         t_lo = cfg.get("t_lo") and datetime(*cfg["t_lo"]) or LO_DEFAULT
         t_hi = cfg.get("t_hi") and datetime(*cfg["t_hi"]) or HI_DEFAULT
-        self.T = [inp.time("T%d" % i, t_lo, t_hi) for i in range(N)]
-        for i in range(N - 1):
-            c.assume(self.T[i] < self.T[i + 1])
+        if cfg.get("concrete_grid"):
+            # a concrete daily grid (used where elapsed time enters a nonlinear formula: interest)
+            base = datetime(2030, 1, 7, 16, 0, 0)
+            self.T = [const_time(base + timedelta(days=i)) if c.mode == "sym" else base + timedelta(days=i)
+                      for i in range(N)]
+        else:
+            self.T = [inp.time("T%d" % i, t_lo, t_hi) for i in range(N)]
+            for i in range(N - 1):
+                c.assume(self.T[i] < self.T[i + 1])
         # ---- latency
         lat = cfg.get("latency", "zero")
         if lat == "zero":
@@ -238,6 +244,12 @@ class Episode:
                 ev = Ping(t, payload)
             ev._tag = "free%d" % j
             self.free.append(ev)
+        self.rate_event = None
+        if cfg.get("rate") == "sym":
+            from tradingenv.contracts import Rate
+            self.rate = inp.real("rate", 0.0, 0.2)
+            self.rate_event = EventNBBO(self.T[0], BrokerFees().interest_rate, self.rate, self.rate)
+            self.rate_event._tag = "rate"
         order = cfg.get("insertion", "bars-first")
         bars_flat = [ev for row in self.bars for ev in row]
         if order == "bars-first":
@@ -246,6 +258,8 @@ class Episode:
             self.events = self.free + bars_flat
         else:   # interleaved, reversed bars
             self.events = list(reversed(bars_flat)) + self.free
+        if self.rate_event is not None:
+            self.events = [self.rate_event] + self.events
         # ---- folds / transmitter
         folds = None
         self.fold_name = "training-set"
@@ -294,7 +308,7 @@ class Episode:
         if cfg.get("reward"):
             kw["reward"] = cfg["reward"]
         if cfg.get("fees"):
-            kw["broker_fees"] = BrokerFees(proportional=0.001, fixed=0.01)
+            kw["broker_fees"] = BrokerFees(proportional=0.001, fixed=0.01, markup=cfg.get("markup", 0.0))
         if cfg.get("feature"):
             self.recorder = IState([PriceFeature(self.contracts[0], self.log, self.envbox)], save=False)
         self.env = TradingEnv(action_space=self.space, state=self.recorder, transmitter=self.transmitter,
